@@ -53,6 +53,17 @@ THEOREMS = [
     "SleapVerif.C20.which_oneof_raises",
     "SleapVerif.C20.oneof_rejects_after_assignment",
     "SleapVerif.C20.builders_history_independent",
+    "SleapVerif.C20.aug_named_enabled_tree",
+    "SleapVerif.C20.getAugConfig_parts",
+    "SleapVerif.C20.aug_dict_is_constructor",
+    "SleapVerif.C20.backbone_dict_places",
+    "SleapVerif.C20.backbone_dict_selects",
+    "SleapVerif.C20.scheduler_dict_places",
+    "SleapVerif.C20.head_dict_places",
+    "SleapVerif.C20.builder_complete_nested",
+    "SleapVerif.C20.convnext_model_type_counterexample",
+    "SleapVerif.C20.geometric_scale_counterexample",
+    "SleapVerif.C20.backbone_dict_drops_second_counterexample",
 ]
 
 GEO = ["rotation", "scale", "translate", "erase_scale", "mixup"]
@@ -64,8 +75,10 @@ HEADS = ["single_instance", "centroid", "centered_instance", "bottomup"]
 
 
 # ------------------------------------------------------------------ canonical typed trees
-def tag(o):
-    """Typed canonical form: None | ('b',x) | ('i',x) | ('f',Fraction) | ('s',x) | ('L',[..]) | dict."""
+def tag(o, tup=False):
+    """(tup=True: for ARGUMENTS sent to the model — a Python tuple is kept apart from a list, token `U`, because the
+    builders' isinstance tests tell them apart; observed OUTPUTS use tup=False: OmegaConf stores tuples as lists.)
+    Typed canonical form: None | ('b',x) | ('i',x) | ('f',Fraction) | ('s',x) | ('L',[..]) | dict."""
     if o is None:
         return None
     if isinstance(o, bool):
@@ -80,12 +93,14 @@ def tag(o):
         return ("f", Fraction(repr(o)))  # exact decimal of the shortest repr: lossless both ways
     if isinstance(o, str):
         return ("s", o)
+    if isinstance(o, tuple) and tup:
+        return ("U", [tag(x, tup) for x in o])
     if isinstance(o, (list, tuple)):
-        return ("L", [tag(x) for x in o])
+        return ("L", [tag(x, tup) for x in o])
     if isinstance(o, dict):
-        return {str(k): tag(v) for k, v in o.items()}
+        return {str(k): tag(v, tup) for k, v in o.items()}
     if hasattr(o, "__tuple__"):
-        return tag(o.__tuple__)
+        return tag(o.__tuple__, tup)
     raise TypeError(f"cannot canonicalise {type(o)}")
 
 
@@ -109,6 +124,10 @@ def dec(s: str) -> str:
     return out.decode()
 
 
+def targ(o):
+    return tag(o, tup=True)
+
+
 def toks(t) -> str:
     if t is None:
         return "n"
@@ -125,8 +144,8 @@ def toks(t) -> str:
         return f"f{v.numerator}" if v.denominator == 1 else f"f{v.numerator}/{v.denominator}"
     if k == "s":
         return "s" + enc(v)
-    if k == "L":
-        return " ".join(["L", str(len(v))] + [toks(x) for x in v])
+    if k in ("L", "U"):
+        return " ".join([k, str(len(v))] + [toks(x) for x in v])
     raise ValueError(k)
 
 
@@ -377,10 +396,12 @@ class Impl:
         return lines
 
     def full_args(self, fn, kw):
-        sig = inspect.signature(fn)
-        ba = sig.bind(**kw)
-        ba.apply_defaults()
-        return dict(ba.arguments)
+        """the complete argument record the MODEL is given: the caller's keywords over the pinned table
+        EFFECTIVE_DEFAULTS (documented defaults; not read from the implementation's signature, so an edit of a
+        signature default shows up as a disagreement and as an oracle failure)"""
+        kind = fn.__name__[4:-7]
+        inspect.signature(fn).bind(**kw)          # only checks that the keywords exist (TypeError otherwise)
+        return {**EFFECTIVE_DEFAULTS[kind], **kw}
 
     BUILDER_OPS = ("aug", "backbone", "head", "data", "model", "trainer")
 
@@ -474,31 +495,29 @@ class Impl:
             return self.run_which(case)
         if op == "aug":
             ia, ga = case["ia"], case["ga"]
-            return ([f"aug fixed {toks(tag(ia))} {toks(tag(ga))}", f"aug asIs {toks(tag(ia))} {toks(tag(ga))}"],
-                    self.observe(tr.get_aug_config, ia, ga))
+            return [f"aug fixed {toks(targ(ia))} {toks(targ(ga))}"], self.observe(tr.get_aug_config, ia, ga)
         if op == "backbone":
-            return [f"backbone {toks(tag(case['a']))}"], self.observe(tr.get_backbone_config, case["a"])
+            return [f"backbone {toks(targ(case['a']))}"], self.observe(tr.get_backbone_config, case["a"])
         if op == "head":
-            return [f"head {toks(tag(case['a']))}"], self.observe(tr.get_head_configs, case["a"])
+            return [f"head {toks(targ(case['a']))}"], self.observe(tr.get_head_configs, case["a"])
         if op == "data":
             full = self.full_args(tr.get_data_config, case["kw"])
-            return ([f"data fixed {toks(tag(full))}", f"data asIs {toks(tag(full))}"],
-                    self.observe(tr.get_data_config, **case["kw"]))
+            return [f"data fixed {toks(targ(full))}"], self.observe(tr.get_data_config, **case["kw"])
         if op == "model":
             full = self.full_args(tr.get_model_config, case["kw"])
-            return [f"model {toks(tag(full))}"], self.observe(tr.get_model_config, **case["kw"])
+            return [f"model {toks(targ(full))}"], self.observe(tr.get_model_config, **case["kw"])
         if op == "trainer":
             full = self.full_args(tr.get_trainer_config, case["kw"])
-            return [f"trainer {toks(tag(full))}"], self.observe(tr.get_trainer_config, **case["kw"])
+            return [f"trainer {toks(targ(full))}"], self.observe(tr.get_trainer_config, **case["kw"])
         if op == "mk":
             cls = self.classes[case["cls"]]
-            return [f"mk {case['cls']} {toks(tag(case['kw']))}"], self.observe(cls, **case["kw"])
+            return [f"mk {case['cls']} {toks(targ(case['kw']))}"], self.observe(cls, **case["kw"])
         if op == "ctor":
             # the attrs constructor alone (validators), value given directly or read from YAML text
             cls = self.classes[case["cls"]]
             kw = self.case_kwargs(case)
             r = call(cls, **kw)
-            return [f"mk {case['cls']} {toks(tag(kw))}"], (("ok", None) if r[0] == "ok" else ("raise", r[1]))
+            return [f"mk {case['cls']} {toks(targ(kw))}"], (("ok", None) if r[0] == "ok" else ("raise", r[1]))
         if op == "bctor":
             # a builder observed at attrs level (no OmegaConf conversion): did the validators let it through?
             fn = getattr(tr, f"get_{case['fn']}_config")
@@ -506,7 +525,7 @@ class Impl:
             full = self.full_args(fn, kw)
             line = {"data": "data fixed", "model": "modelraw", "trainer": "trainer"}[case["fn"]]
             r = call(fn, **kw)
-            return [f"{line} {toks(tag(full))}"], (("ok", None) if r[0] == "ok" else ("raise", r[1]))
+            return [f"{line} {toks(targ(full))}"], (("ok", None) if r[0] == "ok" else ("raise", r[1]))
         if op == "oneof":
             # BackboneConfig / HeadConfig with the named fields set to default sub-configs
             cls = self.classes[case["cls"]]
@@ -681,32 +700,100 @@ def rest_default(sub, supplied, dflt, label):
     return None
 
 
+# Documented defaults of the builders' parameters, pinned here from the docstrings of train.py ("Default: …");
+# NOT read from the implementation.  Parameters whose docstring names no default are pinned from the signature
+# as it was when this table was written (marked `# undocumented`) — trusted base.
+DOC_DEFAULTS = {
+    "data": {"test_file_path": None,  # undocumented
+             "provider": "LabelsReader", "user_instances_only": True, "data_pipeline_fw": "torch_dataset",
+             "np_chunks_path": None, "litdata_chunks_path": None, "use_existing_chunks": False, "chunk_size": 100,
+             "delete_chunks_after_training": True, "is_rgb": False, "scale": 1.0, "max_height": None,
+             "max_width": None, "crop_hw": None, "min_crop_size": 100, "use_augmentations_train": False,
+             "intensity_aug": None, "geometry_aug": None},  # undocumented (last two)
+    "model": {"init_weight": "default", "pre_trained_weights": None, "pretrained_backbone_weights": None,
+              "pretrained_head_weights": None, "backbone_config": "unet", "head_configs": None},  # undocumented (last two)
+    "trainer": {"batch_size": 4, "shuffle_train": False, "num_workers": 0, "ckpt_save_top_k": 1,
+                "ckpt_save_last": False, "trainer_num_devices": "auto", "trainer_accelerator": "auto",
+                "enable_progress_bar": False, "steps_per_epoch": None, "max_epochs": 100, "seed": 1000,
+                "use_wandb": False, "save_ckpt": False, "save_ckpt_path": None, "resume_ckpt_path": None,
+                "wandb_entity": None, "wandb_project": None, "wandb_name": None, "wandb_api_key": None,
+                "wandb_mode": None, "wandb_resume_prv_runid": None, "wandb_group_name": None, "optimizer": "Adam",
+                "learning_rate": 1e-3, "amsgrad": False, "lr_scheduler": None,  # lr_scheduler undocumented
+                "early_stopping": False, "early_stopping_min_delta": 0.0, "early_stopping_patience": 1},
+}
+# F-C20e: where the signature contradicts its own docstring (docstring says False, signature says True)
+SIG_CONTRADICTS_DOC = {"trainer": {"shuffle_train": True, "ckpt_save_last": True}}
+# what the model is given for an argument the caller does not pass: the documented default, except F-C20e
+EFFECTIVE_DEFAULTS = {k: {**v, **SIG_CONTRADICTS_DOC.get(k, {})} for k, v in DOC_DEFAULTS.items()}
+UNIONS = {"backbone_config": ("unet", "convnext", "swint"), "head_configs": tuple(HEADS),
+          "lr_scheduler": ("step_lr", "reduce_lr_on_plateau")}
+
+
+def union_problem(arg, d):
+    """a dict-form union argument that cannot be placed as a whole: more than one member given (non-None), or a
+    key that is no member — the property then demands an error, not a silent drop"""
+    if not isinstance(d, dict):
+        return None
+    members = UNIONS[arg]
+    given = [k for k in members if d.get(k) is not None] if arg != "backbone_config" else [k for k in members if k in d]
+    unknown = [k for k, v in d.items() if k not in members and v is not None]
+    if len(given) > 1:
+        return f"{arg} names {len(given)} types ({', '.join(given)})"
+    if unknown:
+        return f"{arg} has unknown key(s) {unknown}"
+    return None
+
+
 def oracle_builder(impl: Impl, kind, kw):
-    """C20 on a data/model/trainer builder call with valid arguments: every supplied argument is
-    read back at its documented place, every other option has the schema default, the key set is the
-    schema's.  Returns why | None."""
+    """C20 on a data/model/trainer builder call with valid arguments.  Independent of the model and of the
+    implementation's precedence rules: (1) every argument passed is read back at its documented place;
+    (2) every parameter NOT passed has its documented default (DOC_DEFAULTS) there; (3) every option that is no
+    parameter has the schema default, key sets are the schema's; (4) every supplied non-None sub-dict of a
+    structured argument is reflected in full, with the rest at the schema class default — or the call raises.
+    Returns a list of (why, signatures)."""
     fn = {"data": impl.tr.get_data_config, "model": impl.tr.get_model_config,
           "trainer": impl.tr.get_trainer_config}[kind]
+    out_all = []
+
+    def bad(why, *sigs):
+        out_all.append((why, list(sigs)))
+
     r = impl.observe(fn, **kw)
+    probs = [w for a in UNIONS if a in kw for w in [union_problem(a, kw[a])] if w]
     if r[0] == "raise":
-        return f"raised {r[1]} on valid arguments"
+        if not probs:
+            b = kw.get("backbone_config")
+            sig = []
+            if kind == "model" and isinstance(b, str) and b in PRESETS and r[1] == "ValidationError" \
+                    and not issubclass(*preset_classes(impl, b)):
+                sig = ["preset_class_not_subclass"]
+            bad(f"raised {r[1]} on valid arguments", *sig)
+        return out_all
+    for w in probs:
+        bad(f"{w}: the call neither raises nor can it reflect all of them — silently dropped",
+            "structured_argument_silently_dropped")
     out = r[1]
-    full = impl.full_args(fn, kw)
+    doc = DOC_DEFAULTS[kind]
     dflt = expand_default(impl, kind)
     touched = []
     for a, where in PLACE[kind].items():
         for p in (where if isinstance(where, list) else [where]):
             touched.append(p)
-            if get(out, p) != tag(full[a]):
-                return f"argument {a}={full[a]!r} not found at {'.'.join(p)} (there: {untag(get(out, p))!r})"
+            if a in kw:
+                if get(out, p) != tag(kw[a]):
+                    bad(f"argument {a}={kw[a]!r} not found at {'.'.join(p)} (there: {untag(get(out, p))!r})")
+            elif get(out, p) != tag(doc[a]):
+                contra = SIG_CONTRADICTS_DOC.get(kind, {})
+                sig = ["signature_default_contradicts_doc"] if a in contra and get(out, p) == tag(contra[a]) else []
+                bad(f"argument {a} not passed: {'.'.join(p)} = {untag(get(out, p))!r}, documented default is {doc[a]!r}", *sig)
     if kind == "trainer" and get(out, ("val_data_loader", "shuffle")) != ("b", False):
-        return "val_data_loader.shuffle is not False"
+        bad("val_data_loader.shuffle is not False")
     for p, v in leaves(dflt):
         if p in touched or any(p[:len(c)] == c for c in COMPUTED[kind]):
             continue
         if get(out, p) != v:
-            return f"option {'.'.join(p)} = {untag(get(out, p))!r}, schema default is {untag(v)!r}"
-    # completeness: same keys as the schema wherever the schema has a dict
+            bad(f"option {'.'.join(p)} = {untag(get(out, p))!r}, schema default is {untag(v)!r}")
+
     def keyset(t, s, p=()):
         if isinstance(s, dict):
             if not isinstance(t, dict) or set(t) != set(s):
@@ -718,86 +805,95 @@ def oracle_builder(impl: Impl, kind, kw):
         return None
     w = keyset(out, dflt)
     if w:
-        return w
-    # structured arguments
+        bad(w)
+        return out_all
+
+    def reflected(sub, supplied, cls, label):
+        """a supplied sub-dict is reflected in full; everything else is the schema class default"""
+        if not isinstance(sub, dict):
+            if not probs:
+                bad(f"{label} was supplied ({supplied!r}) but is not set")
+            return
+        for k, v in supplied.items():
+            if sub.get(k, "<absent>") != tag(v):
+                bad(f"{label}[{k}]={v!r} not reflected (there: {untag(sub.get(k, '<absent>'))!r})")
+        w = rest_default(sub, supplied, impl.defaults[cls], label)
+        if w:
+            bad(w)
+
+    full = {**doc, **kw}
     if kind == "data":
+        a = get(out, ("augmentation_config",))
         if full["use_augmentations_train"]:
-            a = get(out, ("augmentation_config",))
+            if not isinstance(a, dict):
+                bad("use_augmentations_train is True but augmentation_config is not set")
+                return out_all
             for n in aug_names(full["intensity_aug"], INT) or []:
                 if a["intensity"][n + "_p"] != F(1):
-                    return f"intensity augmentation {n} not enabled"
+                    bad(f"intensity augmentation {n} not enabled")
             for n in aug_names(full["geometry_aug"], GEO) or []:
                 if not geo_enabled(n, a["geometric"]):
-                    return f"geometric augmentation {n} not enabled"
+                    bad(f"geometric augmentation {n} not enabled")
             for nm, sub, c in (("intensity_aug", "intensity", "IntensityConfig"), ("geometry_aug", "geometric", "GeometricConfig")):
                 if isinstance(full[nm], dict):
-                    for k, v in full[nm].items():
-                        if a[sub].get(k, "<absent>") != tag(v):
-                            return f"{nm}[{k}] not reflected"
-                    w = rest_default(a[sub], full[nm], impl.defaults[c], f"augmentation_config.{sub}")
-                    if w:
-                        return w
-        elif get(out, ("augmentation_config",)) is not None:
-            return "augmentation_config set although use_augmentations_train is False"
+                    reflected(a[sub], full[nm], c, f"augmentation_config.{sub}")
+                elif full[nm] is not None and not isinstance(full[nm], (str, list)):
+                    if a[sub] == impl.defaults[c]:
+                        bad(f"{nm}={full[nm]!r} (a {type(full[nm]).__name__}) is neither used nor rejected — silently dropped",
+                            "structured_argument_silently_dropped")
+                elif full[nm] is None and a[sub] != impl.defaults[c]:
+                    bad(f"{nm} not passed: augmentation_config.{sub}: " + first_diff(a[sub], impl.defaults[c]) + " (schema default)")
+        elif a is not None:
+            bad("augmentation_config set although use_augmentations_train is False")
     if kind == "model":
         b, h = full["backbone_config"], full["head_configs"]
         bb, hd = out["backbone_config"], out["head_configs"]
         if isinstance(b, str):
             fam = "unet" if b.startswith("unet") else "convnext" if b.startswith("convnext") else "swint"
             if not isinstance(bb.get(fam), dict) or sum(v is not None for v in bb.values()) != 1:
-                return f"preset {b}: backbone_config.{fam} is not the only backbone set"
-            if b in PRESET_CLS:
+                bad(f"preset {b}: backbone_config.{fam} is not the only backbone set")
+            elif b in PRESET_CLS:
                 w = rest_default(bb[fam], {}, impl.defaults[PRESET_CLS[b]], f"backbone_config.{fam} (preset {b})")
                 if w:
-                    return w
-        elif isinstance(b, dict) and b:
-            fam = next((f for f in ("unet", "convnext", "swint") if f in b), None)
-            if fam and not isinstance(bb.get(fam), dict):
-                return f"backbone_config={b!r}: {fam} requested but backbone_config.{fam} is not set"
-            for k, v in (b[fam].items() if fam else []):
-                if get(bb, (fam, k)) != tag(v):
-                    return f"backbone_config[{fam}][{k}] not reflected"
-            if fam:
-                w = rest_default(bb[fam], b[fam], impl.defaults[BB_CLS[fam]], f"backbone_config.{fam}")
-                if w:
-                    return w
+                    bad(w)
+        elif isinstance(b, dict):
+            for fam in UNIONS["backbone_config"]:
+                if fam in b and isinstance(b[fam], dict):
+                    reflected(bb.get(fam), b[fam], BB_CLS[fam], f"backbone_config.{fam}")
+            if sum(v is not None for v in bb.values()) > 1:
+                bad("more than one backbone type set in the result")
         if isinstance(h, str):
             if not isinstance(hd.get(h), dict) or sum(v is not None for v in hd.values()) != 1:
-                return f"head {h} is not the only head set"
-            if hd[h] != impl.defaults[HD_CLS[h]]:
-                return f"head_configs.{h}: " + first_diff(hd[h], impl.defaults[HD_CLS[h]]) + " (schema default)"
+                bad(f"head {h} is not the only head set")
+            elif hd[h] != impl.defaults[HD_CLS[h]]:
+                bad(f"head_configs.{h}: " + first_diff(hd[h], impl.defaults[HD_CLS[h]]) + " (schema default)")
         elif isinstance(h, dict):
-            first = next((f for f in HEADS if h.get(f) is not None), None)
-            if first:
-                if not isinstance(hd.get(first), dict):
-                    return f"head_configs={h!r}: {first} requested but head_configs.{first} is not set"
-                for layer, kws in h[first].items():
-                    for k, v in kws.items():
-                        if get(hd, (first, layer, k)) != tag(v):
-                            return f"head_configs[{first}][{layer}][{k}] not reflected"
-                    if layer in ("confmaps", "pafs"):
-                        c = CM_CLS[first] if layer == "confmaps" else "PAFConfig"
-                        w = rest_default(get(hd, (first, layer)), kws, impl.defaults[c], f"head_configs.{first}.{layer}")
-                        if w:
-                            return w
+            for name in HEADS:
+                if isinstance(h.get(name), dict):
+                    if not isinstance(hd.get(name), dict):
+                        if not probs:
+                            bad(f"head_configs.{name} was supplied but is not set")
+                        continue
+                    for layer, kws in h[name].items():
+                        if layer in ("confmaps", "pafs") and isinstance(kws, dict):
+                            c = CM_CLS[name] if layer == "confmaps" else "PAFConfig"
+                            reflected(get(hd, (name, layer)), kws, c, f"head_configs.{name}.{layer}")
+            if sum(v is not None for v in hd.values()) > 1:
+                bad("more than one head type set in the result")
+        elif h is None and any(v is not None for v in hd.values()):
+            bad("head_configs not passed but a head type is set")
     if kind == "trainer":
         s = full["lr_scheduler"]
         ls = out["lr_scheduler"]
         if isinstance(s, str) and not isinstance(ls.get(s), dict):
-            return f"lr_scheduler {s} not set"
+            bad(f"lr_scheduler {s} not set")
         if isinstance(s, dict):
-            first = next((k for k, v in s.items() if v is not None and k in ("step_lr", "reduce_lr_on_plateau")), None)
-            if first:
-                if not isinstance(ls.get(first), dict):
-                    return f"lr_scheduler={s!r}: scheduler {first} requested but lr_scheduler.{first} is not set"
-                for k, v in s[first].items():
-                    if get(ls, (first, k)) != tag(v):
-                        return f"lr_scheduler[{first}][{k}] not reflected"
-                c = "StepLRConfig" if first == "step_lr" else "ReduceLROnPlateauConfig"
-                w = rest_default(ls[first], s[first], impl.defaults[c], f"lr_scheduler.{first}")
-                if w:
-                    return w
-    return None
+            for name, c in (("step_lr", "StepLRConfig"), ("reduce_lr_on_plateau", "ReduceLROnPlateauConfig")):
+                if isinstance(s.get(name), dict):
+                    reflected(ls.get(name), s[name], c, f"lr_scheduler.{name}")
+        if s is None and any(v is not None for v in ls.values()):
+            bad("lr_scheduler not passed but a scheduler is set")
+    return out_all
 
 
 def oracle_verify(impl: Impl, cfg):
@@ -838,7 +934,9 @@ def oracle_verify(impl: Impl, cfg):
 
 
 # ------------------------------------------------------------------ generators
-STRS = ["a.slp", "data/train set.pkg.slp", "", "vidéo.mp4", "x", "C:\\tmp\\v 1.slp", "100%"]
+STRS = ["a.slp", "data/train set.pkg.slp", "", "vidéo.mp4", "x", "C:\\tmp\\v 1.slp", "100%",
+        # text that YAML would read as another type if it were written unquoted
+        "123", "true", "null", "2024-01-01", "1e-3", ".nan", "~", "0x1F", "yes", "line1\nline2"]
 
 
 def gen_aug_arg(rng, names, dict_fields):
@@ -1029,6 +1127,10 @@ INVALID = [
     ("GeometricConfig", "erase_p", [-0.5, 1.25], ("data.geometry_aug", "erase_p")),
     ("GeometricConfig", "mixup_p", [-1.0, 7.0], ("data.geometry_aug", "mixup_p")),
     ("SwinTConfig", "model_type", ["large", "huge", ""], ("model.backbone.swint", "model_type")),
+    ("ConvNextConfig", "model_type", ["huge", "", "Tiny", "xl"], ("model.backbone.convnext", "model_type")),
+    ("ConvNextSmallConfig", "model_type", ["huge"], None), ("ConvNextBaseConfig", "model_type", ["huge"], None),
+    ("ConvNextLargeConfig", "model_type", ["huge"], None),
+    ("GeometricConfig", "scale", [(-1.0, 2.0), (1.0,), [0.5, -0.1], [1.0, 1.0, 1.0]], ("data.geometry_aug", "scale")),
     ("SwinTSmallConfig", "model_type", ["large"], None),
     ("SwinTBaseConfig", "model_type", ["xl"], None),
     ("OptimizerConfig", "lr", [0.0, -1e-3], ("trainer", "learning_rate")),
@@ -1048,6 +1150,8 @@ VALID_EDGE = [
     ("EarlyStoppingConfig", "min_delta", [0.0]), ("EarlyStoppingConfig", "patience", [0]),
     ("TrainerConfig", "trainer_devices", [0, [0], "auto"]), ("TrainerConfig", "optimizer_name", ["AdamW"]),
     ("SwinTConfig", "model_type", ["tiny", "small", "base"]),
+    ("ConvNextConfig", "model_type", ["tiny", "small", "base", "large"]),
+    ("GeometricConfig", "scale", [None, [0.9, 1.1], (0.5, 1.5), [0.9, 1.1, 0.8, 1.2]]),
 ]
 
 
@@ -1102,6 +1206,9 @@ KIND = {
     ("IntensityConfig", "contrast_min"): "lower", ("IntensityConfig", "contrast_max"): "lower",
     ("IntensityConfig", "contrast_p"): "prob", ("IntensityConfig", "brightness_p"): "prob",
     ("GeometricConfig", "affine_p"): "prob", ("GeometricConfig", "erase_p"): "prob", ("GeometricConfig", "mixup_p"): "prob",
+    ("ConvNextConfig", "model_type"): "choice", ("ConvNextSmallConfig", "model_type"): "choice",
+    ("ConvNextBaseConfig", "model_type"): "choice", ("ConvNextLargeConfig", "model_type"): "choice",
+    ("GeometricConfig", "scale"): "interval",
     ("SwinTConfig", "model_type"): "choice", ("SwinTSmallConfig", "model_type"): "choice",
     ("SwinTBaseConfig", "model_type"): "choice",
     ("OptimizerConfig", "lr"): "lower", ("StepLRConfig", "step_size"): "lower",
@@ -1123,6 +1230,7 @@ ROUTES = {
     **{("GeometricConfig", f): ("data", f"geometry_aug.{f}", {**_D, "use_augmentations_train": True})
        for (c, f) in KIND if c == "GeometricConfig"},
     ("SwinTConfig", "model_type"): ("model", "backbone_config.swint.model_type", {}),
+    ("ConvNextConfig", "model_type"): ("model", "backbone_config.convnext.model_type", {}),
     ("OptimizerConfig", "lr"): ("trainer", "learning_rate", {}),
     ("StepLRConfig", "step_size"): ("trainer", "lr_scheduler.step_lr.step_size", {}),
     ("ReduceLROnPlateauConfig", "min_lr"): ("trainer", "lr_scheduler.reduce_lr_on_plateau.min_lr", {}),
@@ -1160,6 +1268,13 @@ def edge_expect(kind, v):
         if isinstance(v, list) and v and all(isinstance(x, float) for x in v):
             return "reject" if any(x < 0 for x in v) else None
         return "reject"                       # bool / None / text are not floats
+    if kind == "interval":      # GeometricConfig.scale: None, or 2 (or 4) finite non-negative numbers
+        if v is None:
+            return None
+        if isinstance(v, (list, tuple)) and len(v) in (2, 4) and \
+                all(isinstance(x, (int, float)) and not isinstance(x, bool) and 0 <= x < INF for x in v):
+            return None
+        return "reject"
     if kind == "devices":
         if isinstance(v, bool):
             return None
@@ -1359,6 +1474,25 @@ def build_cases(chk: Check, impl: Impl):
         cases.append({"op": "model", "kw": kw})
     for _ in range(chk.n(120, 1500)):
         cases.append({"op": "trainer", "kw": gen_kw(rng, TRAINER_GEN)})
+    # --- structured arguments that cannot be placed as a whole; invalid names (train.py:530-533 etc.)
+    D2 = {"train_labels_path": "t.slp", "val_labels_path": "v.slp", "use_augmentations_train": True}
+    cases += [
+        {"op": "model", "kw": {"backbone_config": {"convnext": {"model_type": "small"}, "unet": {}}}},
+        {"op": "model", "kw": {"backbone_config": {"resnet": {"depth": 50}}}},
+        {"op": "model", "kw": {"head_configs": {"bottomup": {"confmaps": {}, "pafs": {}}, "centroid": {"confmaps": {}}}}},
+        {"op": "trainer", "kw": {"lr_scheduler": {"cosine": {"T_max": 5}}}},
+        {"op": "trainer", "kw": {"lr_scheduler": {"step_lr": {"step_size": 5}, "reduce_lr_on_plateau": {"patience": 3}}}},
+        {"op": "trainer", "kw": {"lr_scheduler": "cosine"}, "expect": "reject", "field": "get_trainer_config.lr_scheduler"},
+        {"op": "trainer", "kw": {"lr_scheduler": ""}, "expect": "reject", "field": "get_trainer_config.lr_scheduler"},
+        {"op": "trainer", "kw": {"lr_scheduler": "StepLR"}, "expect": "reject", "field": "get_trainer_config.lr_scheduler"},
+        {"op": "model", "kw": {"backbone_config": "resnet"}, "expect": "reject", "field": "get_model_config.backbone_config"},
+        {"op": "model", "kw": {"backbone_config": "unet_small"}, "expect": "reject", "field": "get_model_config.backbone_config"},
+        {"op": "model", "kw": {"head_configs": "topdown"}, "expect": "reject", "field": "get_model_config.head_configs"},
+        {"op": "model", "kw": {"head_configs": {"centroid": "x"}}, "expect": "reject", "field": "get_model_config.head_configs"},
+        {"op": "aug", "ia": ("contrast",), "ga": ("rotation", "scale")},      # tuples are not lists for the code
+        {"op": "data", "kw": {**D2, "geometry_aug": ("rotation", "scale")}},
+        {"op": "data", "kw": {**D2, "intensity_aug": ("contrast",), "crop_hw": (96, 128)}},
+    ]
     # --- validators
     cases += list(invalid_cases())
     cases += list(edge_cases())
@@ -1518,6 +1652,11 @@ def verify_cases(chk: Check, impl: Impl):
             part["data_config"]["skeletons"] = {"sk": {"nodes": ["a", "b"], "edges": [[0, 1]]}}
             out.append({"op": "verify", "cfg": part, "kind": "extra nested keys"})
     out += list(sentinel_cases(chk, impl))
+    for name, base in complete_bases(impl):
+        m = json.loads(json.dumps(base))
+        m["data_config"]["skeletons"] = {"sk": {"nodes": ["a", "???"]}}
+        out.append({"op": "verify", "cfg": m, "kind": "MISSING marker inside a list"})
+        break
     out.append({"op": "verify", "cfg": {}, "kind": "empty"})
     out.append({"op": "verify", "cfg": {"data_config": {"train_labels_path": "x"}}, "kind": "sparse"})
     return out
@@ -1558,24 +1697,16 @@ def check_case(chk: Check, impl: Impl, case, lines, ires, model_lines):
         mres = [(m[0], None) if m[0] == "ok" else m for m in mres]   # status / exception class only
     agree = ires == mres[0]
     # ---- the property itself, on the implementation (independent of the model)
-    why, sigs = None, []
+    why, sigs, reported = None, [], False
     if op == "aug":
         o = oracle_aug(impl, case["ia"], case["ga"])
         if o:
             why, sigs = o
     elif op in ("data", "model", "trainer") and "expect" not in case:
-        if ires[0] == "ok" or mres[0][0] == "ok":
-            why = oracle_builder(impl, op, case["kw"])
-            if why and op == "data":
-                full = impl.full_args(impl.tr.get_data_config, case["kw"])
-                gn = aug_names(full["geometry_aug"], GEO)
-                if full["use_augmentations_train"] and gn and len(AFFINE & set(gn)) >= 2 and "geometric augmentation" in why:
-                    sigs = ["aug_two_affine_names"]
-            if why and op == "model":
-                b = impl.full_args(impl.tr.get_model_config, case["kw"])["backbone_config"]
-                if isinstance(b, str) and b in PRESETS and ires == ("raise", "ValidationError") \
-                        and not issubclass(*preset_classes(impl, b)):
-                    sigs = ["preset_class_not_subclass"]
+        # not gated on the model: a valid record on which implementation AND model raise is reported too
+        for w, sg in oracle_builder(impl, op, case["kw"]):
+            chk.fail(f"C20 fails on {op}: {w}", jcase, show(ires), sg)
+            reported = True
     elif op == "backbone" and isinstance(case["a"], str) and case["a"] in PRESETS:
         if ires[0] == "raise":
             why = f"documented preset {case['a']!r} cannot be turned into a configuration: {ires[1]}"
@@ -1584,6 +1715,11 @@ def check_case(chk: Check, impl: Impl, case, lines, ires, model_lines):
     elif "expect" in case:
         if case["expect"] == "reject" and ires[0] == "ok":
             why = f"invalid value accepted for {case['field']}" + (f" = {case['shown']}" if "shown" in case else "")
+            fld = case["field"]
+            if fld.startswith("ConvNext") and fld.endswith("Config.model_type") and not field_has_validator(impl, fld):
+                sigs = ["convnext_model_type_unvalidated"]
+            if fld == "GeometricConfig.scale" and not field_has_validator(impl, fld):
+                sigs = ["geometric_scale_unvalidated"]
         if case["expect"] == "accept" and ires[0] == "raise":
             why = f"valid value rejected for {case['field']}: {ires[1]}"
     elif op == "verify":
@@ -1613,7 +1749,7 @@ def check_case(chk: Check, impl: Impl, case, lines, ires, model_lines):
             chk.tag("explained-by:F-C20")
         if not explained:
             chk.disagree(f"{op}: implementation == Config model", jcase, show(ires), show(mres[0]))
-            if not why:
+            if not why and not reported:
                 focused_search(chk, impl, case)
     return agree
 
@@ -1653,6 +1789,11 @@ def check_history(chk: Check, impl: Impl, case, jcase, key, outs, mres):
     return agree
 
 
+def field_has_validator(impl: Impl, fld):
+    cls, f = fld.split(".")
+    return any(a.name == f and a.validator is not None for a in impl.classes[cls].__attrs_attrs__)
+
+
 def preset_classes(impl: Impl, name):
     fam = "unet" if name.startswith("unet") else "convnext" if name.startswith("convnext") else "swint"
     declared = {"unet": "UNetConfig", "convnext": "ConvNextConfig", "swint": "SwinTConfig"}[fam]
@@ -1679,18 +1820,18 @@ def focused_search(chk: Check, impl: Impl, case):
             r = impl.observe(getattr(impl.tr, f"get_{op}_config"), **kw)
             if r[0] != "ok":
                 continue
-            why = oracle_builder(impl, op, kw)
-            if why:
-                chk.fail(f"C20 fails on {op}: {why}", to_json({"op": op, "kw": kw}), show(r))
+            whys = oracle_builder(impl, op, kw)
+            if whys:
+                for w, sg in whys:
+                    chk.fail(f"C20 fails on {op}: {w}", to_json({"op": op, "kw": kw}), show(r), sg)
                 return
     if op in ("backbone", "head"):
         # route through get_model_config where the oracle speaks
         kw = {"backbone_config": case["a"]} if op == "backbone" else {"head_configs": case["a"]}
         r = impl.observe(impl.tr.get_model_config, **kw)
         if r[0] == "ok":
-            why = oracle_builder(impl, "model", kw)
-            if why:
-                chk.fail(f"C20 fails on model: {why}", to_json({"op": "model", "kw": kw}), show(r))
+            for w, sg in oracle_builder(impl, "model", kw):
+                chk.fail(f"C20 fails on model: {w}", to_json({"op": "model", "kw": kw}), show(r), sg)
 
 
 def run_cases(chk: Check, impl: Impl, cases):
@@ -1712,13 +1853,81 @@ def model_lines_only(impl: Impl, sub):
     """driver lines of one builder call (first line = the model the implementation is held to)"""
     op = sub["op"]
     if op == "aug":
-        return [f"aug fixed {toks(tag(sub['ia']))} {toks(tag(sub['ga']))}"]
+        return [f"aug fixed {toks(targ(sub['ia']))} {toks(targ(sub['ga']))}"]
     if op in ("backbone", "head"):
-        return [f"{op} {toks(tag(sub['a']))}"]
+        return [f"{op} {toks(targ(sub['a']))}"]
     if op == "new":
         return [f"mk {sub['cls']} N 0"]
     full = impl.full_args(getattr(impl.tr, f"get_{op}_config"), sub["kw"])
-    return [f"data fixed {toks(tag(full))}"] if op == "data" else [f"{op} {toks(tag(full))}"]
+    return [f"data fixed {toks(targ(full))}"] if op == "data" else [f"{op} {toks(targ(full))}"]
+
+
+# leaves at which a builder called with NO optional argument differs from the schema class default, and why that is
+# not a deviation: the builder documents its own default for that parameter (docstrings of train.py); pinned here.
+DOCUMENTED_BUILDER_DEFAULTS = {
+    "trainer": {("train_data_loader", "batch_size"): 4, ("val_data_loader", "batch_size"): 4,   # batch_size "Default: 4"
+                ("enable_progress_bar",): False,      # "Default: False" (schema: True)
+                ("max_epochs",): 100,                 # "Default: 100"   (schema: 10)
+                ("seed",): 1000,                      # "default: 1000"  (schema: None)
+                # early_stopping / lr_scheduler: the builder always instantiates the sub-configuration; every value in
+                # it is the sub-class's own schema default (EarlyStoppingConfig(), LRSchedulerConfig()) = "disabled"
+                ("early_stopping",): "EarlyStoppingConfig", ("lr_scheduler",): "LRSchedulerConfig"},
+    "model": {("backbone_config", "unet"): "UNetConfig"},     # backbone_config="unet" is the signature default (undocumented)
+    "data": {},
+}
+
+
+def defaults_audit(chk: Check, impl: Impl):
+    """(a) the builders' signature defaults are the pinned EFFECTIVE_DEFAULTS; (b) a builder called with no optional
+    argument differs from the schema default only at the classified leaves above (or at F-C20e)."""
+    tr = impl.tr
+    for kind, fn in (("data", tr.get_data_config), ("model", tr.get_model_config), ("trainer", tr.get_trainer_config)):
+        sig = {n: p.default for n, p in inspect.signature(fn).parameters.items() if p.default is not inspect._empty}
+        chk.case(f"signature-defaults:{kind}", None, tags=["defaults-audit"])
+        for a in sorted(set(sig) | set(EFFECTIVE_DEFAULTS[kind])):
+            have, want = sig.get(a, "<no such parameter>"), DOC_DEFAULTS[kind].get(a, "<not in the documented table>")
+            if tag_or(have) != tag_or(want):
+                contra = SIG_CONTRADICTS_DOC.get(kind, {})
+                sg = ["signature_default_contradicts_doc"] if a in contra and tag_or(have) == tag_or(contra[a]) else []
+                chk.fail(f"C20 fails on {kind}: get_{kind}_config({a}=…) not passed means {have!r}; its documented default is "
+                         f"{want!r}", {"op": kind, "kw": {} if kind != "data" else {"train_labels_path": "t.slp", "val_labels_path": "v.slp"}},
+                         repr(have), sg)
+        kw = {"train_labels_path": "t.slp", "val_labels_path": "v.slp"} if kind == "data" else {}
+        r = impl.observe(fn, **kw)
+        if r[0] != "ok":
+            continue
+        root = dict(impl.defaults[ROOT_CLASS[kind]])
+        if kind == "data":
+            root = {**root, "train_labels_path": ("s", "t.slp"), "val_labels_path": ("s", "v.slp")}
+        allowed = DOCUMENTED_BUILDER_DEFAULTS[kind]
+        contra_paths = {}
+        for a, v in SIG_CONTRADICTS_DOC.get(kind, {}).items():
+            w = PLACE[kind][a]
+            for p in (w if isinstance(w, list) else [w]):
+                contra_paths[p] = v
+        for d in all_diffs(r[1], root):
+            hit = next((p for p in allowed if d[:len(p)] == p), None)
+            if hit is not None:
+                want = allowed[hit]
+                ok = get(r[1], hit) == (impl.defaults[want] if isinstance(want, str) and want in impl.defaults else tag(want))
+                if ok:
+                    chk.tag("no-arg-builder-vs-schema:documented-builder-default")
+                    continue
+            if d in contra_paths and get(r[1], d) == tag(contra_paths[d]):
+                chk.fail(f"C20 fails on {kind}: get_{kind}_config() leaves {'.'.join(d)} = {untag(get(r[1], d))!r}; schema default "
+                         f"{untag(get(root, d))!r}, documented default False", {"op": kind, "kw": kw}, None,
+                         ["signature_default_contradicts_doc"])
+                continue
+            chk.fail(f"C20 fails on {kind}: get_{kind}_config() with no optional argument has {'.'.join(d)} = "
+                     f"{untag(get(r[1], d))!r}, the schema default is {untag(get(root, d))!r} (not a documented builder default)",
+                     {"op": kind, "kw": kw}, None)
+
+
+def tag_or(x):
+    try:
+        return tag(x)
+    except TypeError:
+        return ("?", repr(x))
 
 
 def replay_known(chk: Check, impl: Impl):
@@ -1747,6 +1956,7 @@ def main(chk: Check):
     impl = Impl()
     replay_known(chk, impl)
     impl.env_lines()                     # computes impl.defaults (the schema trees) from the working tree
+    defaults_audit(chk, impl)
     cases = build_cases(chk, impl)
     cases += verify_cases(chk, impl)
     corpus = sorted((chk_path("corpus") / "C20").glob("*.json")) if (chk_path("corpus") / "C20").is_dir() else []
